@@ -308,6 +308,8 @@ fn double_large_factor(n: &Int) -> u64 {
 }
 
 fn sieve_a(s: &ClSieve, a_int: &Uint, factors: &Factors) {
+    #[cfg(yamaquasi_verif)]
+    simsync::probe::unit_begin("clsgrp_a");
     let mm = s.qs.interval_size;
     let start_offset = if a_int.is_one() { 0 } else { -(mm as i64) / 2 };
     let a = &prepare_a(factors, a_int, s.qs.fbase, start_offset);
